@@ -9,8 +9,10 @@ VARIABLES m, done
 vars == <<m, done>>
 First == 1000
 OffGaps == IF Cfg.rich = 1 THEN {2, 6, 254, 256, 258, 510, 512, 600} ELSE {2, 254, 256, 600}
-LineGaps == IF Cfg.rich = 1 THEN {1, 2, 127, 128, 129, 254, 255, 256, 257, 400, 600, -1, -2, -127, -128, -129, -300}
-            ELSE {1, 127, 128, 255, 256, 400, -1, -128, -129, -300}
+LineGaps == IF Cfg.rich = 1 THEN {0, 1, 2, 127, 128, 129, 254, 255, 256, 257, 400, 600, -1, -2, -127, -128, -129, -300}
+            ELSE {0, 1, 127, 128, 255, 256, 400, -1, -128, -129, -300}
+(* line gap 0: two consecutive entries with the same line (a statement spread over two entries); the line-start readers report  *)
+(* a start only where the line changes, so the mapping expected back is the given one without such repeats (harness)          *)
 (* the line at offset 0 is co_firstlineno, or later (a decorated function: the def line is above the first statement) *)
 Init == m \in { << <<0, First>> >>, << <<0, First + 2>> >> } /\ done = FALSE
 Add == /\ ~done /\ Len(m) <= Cfg.maxlen
@@ -21,7 +23,6 @@ Finish == ~done /\ Len(m) > 1 /\ done' = TRUE /\ UNCHANGED m
 Next == Add \/ Finish
 Spec == Init /\ [][Next]_vars
 OffsetsIncrease == \A i \in 1..(Len(m) - 1) : m[i][1] < m[i + 1][1]
-LinesChange     == \A i \in 1..(Len(m) - 1) : m[i][2] # m[i + 1][2]
 LinesPositive   == \A i \in 1..Len(m) : m[i][2] > 0
 Export == (done /\ Cfg.export = 1) => PrintT(<<"BEH", ToJson([first |-> First, map |-> m])>>)
 =============================================================================
